@@ -28,7 +28,9 @@ ASSUMPTIONS = [
     "a location either route leaves symbolic/top makes no claim",
 ]
 NSEQ = {"quick": 260, "thorough": 8000}
-BIG = {"amoco.arch.x64.cpu_x64": 3, "amoco.arch.x86.cpu_x86": 3}
+BIG = {"amoco.arch.x64.cpu_x64": 6, "amoco.arch.x86.cpu_x86": 6}
+# the map/compose machinery is ISA independent: the two flagship ISAs carry most of the budget for it
+BOOST = {"amoco.arch.x64.cpu_x64": 6, "amoco.arch.x86.cpu_x86": 6}
 
 
 def shards(tier, seed):
@@ -38,6 +40,7 @@ def shards(tier, seed):
             continue  # stack machines whose operands are Python ints (see C17): no register/memory state to compare
         k = BIG.get(n, 1)
         out += [{"isa": n, "sub": j, "nsub": k} for j in range(k)]
+    out += [{"kind": "dsl", "sub": j} for j in range(4)]
     return out
 
 
@@ -353,10 +356,10 @@ def good_instruction(I, b):
     ok = False
     try:
         i = I.decode(b, address=0x1000, guard=5)
-        if i is not None and i.length == len(b):
+        if i is not None and 0 < i.length <= len(b):
             with visa.time_guard(10):
                 mapper([i])
-            ok = True
+            ok = i.length  # (the consumed length: generated tails are cut off)
     except (Exception, visa.HarnessTimeout):
         I.reset_decoder()
     _GOOD[k] = ok
@@ -388,17 +391,206 @@ def dependent(ins, M):
     return False
 
 
+# ---- ISA independent block programs ------------------------------------------
+# The same comparison on "instruction semantics" written in a uniform way (assignments through
+# the operator API on map values): exercises the map / expression machinery without the
+# ISA-specific Python in between, and adds a third route: a plain integer interpreter.
+
+DREG = ["a", "b", "c", "d"]
+PREG = ["p", "q"]
+DSL_ARENA = 0x3000
+
+
+def gen_dsl(rnd):
+    prog = []
+    for _ in range(rnd.randrange(2, 9)):
+        k = rnd.random()
+        if k < 0.62:
+            op = ["+", "-", "+", "-", "&", "|", "^", "*", "<<", ">>"][rnd.randrange(10)]
+            dst = DREG[rnd.randrange(4)]
+            s1 = DREG[rnd.randrange(4)]
+            if rnd.random() < 0.5 or op in ("<<", ">>"):
+                s2 = ["imm", [1, 4, 8, 0xFF, 0x80000000, rnd.getrandbits(32), rnd.getrandbits(5)][rnd.randrange(7)]]
+                if op in ("<<", ">>"):
+                    s2 = ["imm", rnd.randrange(0, 34)]
+            else:
+                s2 = ["reg", DREG[rnd.randrange(4)]]
+            prog.append(["alu", dst, op, s1, s2])
+        elif k < 0.72:
+            prog.append(["cmp", DREG[rnd.randrange(4)], ["==", "ltu", "geu"][rnd.randrange(3)], DREG[rnd.randrange(4)], DREG[rnd.randrange(4)]])
+        elif k < 0.87:
+            # 32-bit stores only (a narrower store over a wider one is the listed finding C09-narrow-after-wide),
+            # at aligned or arbitrary byte offsets, so that stores overlap partially under the same base
+            prog.append(["st", PREG[rnd.randrange(2)], rnd.randrange(0, 3) * 4 if rnd.random() < 0.5 else rnd.randrange(0, 9), 32, DREG[rnd.randrange(4)]])
+        else:
+            prog.append(["ld", PREG[rnd.randrange(2)], rnd.randrange(0, 3) * 4 if rnd.random() < 0.5 else rnd.randrange(0, 9), 32, DREG[rnd.randrange(4)]])
+    return prog
+
+
+def dsl_apply(m, prog):
+    """the 'semantics': identical code for the symbolic and the concrete route"""
+    from amoco.cas import expressions as E
+
+    R_ = {n: E.reg(n, 32) for n in DREG + PREG}
+    for ins in prog:
+        if ins[0] == "alu":
+            _, dst, op, s1, s2 = ins
+            x = m(R_[s1])
+            y = E.cst(s2[1], 32) if s2[0] == "imm" else m(R_[s2[1]])
+            if op == "+":
+                r = x + y
+            elif op == "-":
+                r = x - y
+            elif op == "&":
+                r = x & y
+            elif op == "|":
+                r = x | y
+            elif op == "^":
+                r = x ^ y
+            elif op == "*":
+                r = x * y
+            elif op == "<<":
+                r = x << y
+            else:
+                r = x >> y
+            m[R_[dst]] = r
+        elif ins[0] == "cmp":
+            _, dst, op, s1, s2 = ins
+            x, y = m(R_[s1]), m(R_[s2])
+            if op == "==":
+                c = x == y
+            elif op == "ltu":
+                c = E.oper(E.OP_LTU, x, y)
+            else:
+                c = E.oper(E.OP_GEU, x, y)
+            m[R_[dst]] = E.tst(c, E.cst(1, 32), E.cst(0, 32))
+        elif ins[0] == "st":
+            _, pr, off, sz, src = ins
+            m[E.mem(R_[pr] + off, sz)] = m(R_[src])[0:sz]
+        else:
+            _, pr, off, sz, dst = ins
+            m[R_[dst]] = m(E.mem(R_[pr] + off, sz))
+
+
+def dsl_ref(prog, regs, mem):
+    M32 = 0xFFFFFFFF
+    regs = dict(regs)
+    mem = bytearray(mem)
+    for ins in prog:
+        if ins[0] == "alu":
+            _, dst, op, s1, s2 = ins
+            x = regs[s1]
+            y = s2[1] & M32 if s2[0] == "imm" else regs[s2[1]]
+            regs[dst] = R.binop(op, x, y, 32) if op not in ("<<", ">>") else R.binop(op, x, y, 32)
+        elif ins[0] == "cmp":
+            _, dst, op, s1, s2 = ins
+            x, y = regs[s1], regs[s2]
+            regs[dst] = int(x == y) if op == "==" else (int(x < y) if op == "ltu" else int(x >= y))
+        elif ins[0] == "st":
+            _, pr, off, sz, src = ins
+            a = regs[pr] + off - DSL_ARENA
+            mem[a: a + sz // 8] = (regs[src] & R.M(sz)).to_bytes(sz // 8, "little")
+        else:
+            _, pr, off, sz, dst = ins
+            a = regs[pr] + off - DSL_ARENA
+            regs[dst] = int.from_bytes(mem[a: a + sz // 8], "little")
+    return regs, bytes(mem)
+
+
+def dsl_case(case):
+    """returns None | (bucket, detail)"""
+    from amoco.config import conf
+    from amoco.cas.mapper import mapper
+    from amoco.cas import expressions as E
+
+    prog, regs, memb, noalias = case["prog"], case["regs"], bytes.fromhex(case["mem"]), case["noalias"]
+    if noalias and regs["p"] != regs["q"] and abs(regs["p"] - regs["q"]) < 16:
+        return None
+    if noalias and regs["p"] == regs["q"] and any(i[0] in ("st", "ld") and i[1] == "q" for i in prog) and any(i[0] in ("st", "ld") and i[1] == "p" for i in prog):
+        return None
+    old = (conf.Cas.noaliasing, conf.Cas.memtrace, conf.Cas.complexity)
+    conf.Cas.noaliasing, conf.Cas.memtrace, conf.Cas.complexity = noalias, True, 0
+    try:
+        def sigma():
+            s_ = mapper()
+            for k, v in regs.items():
+                s_[E.reg(k, 32)] = E.cst(v, 32)
+            s_.mmap.write(DSL_ARENA, memb)
+            return s_
+
+        try:
+            M = mapper()
+            M[E.reg("zz", 8)] = E.cst(0, 8)
+            dsl_apply(M, prog)
+            A = sigma() >> M
+            B = sigma().use()
+            dsl_apply(B, prog)
+        except Exception as x:
+            from vlib.runner import bucket_of_exception
+
+            return (bucket_of_exception("dsl:raise", x), repr(x))
+        rr, rm = dsl_ref(prog, regs, memb)
+        tag = "noalias" if noalias else "alias"
+        for n in DREG:
+            va, vb = A(E.reg(n, 32)), B(E.reg(n, 32))
+            for route, v in (("map", va), ("step", vb)):
+                if v._is_cst and v.v != rr[n]:
+                    return ("dsl:reg:%s:%s" % (route, tag), "register %s: %s route %#x, reference %#x; program %r; block map:\n%s" % (n, route, v.v, rr[n], prog, str(M)[:500]))
+        ma, ka = flat_mem(A.mmap, DSL_ARENA, len(memb))
+        mb, kb = flat_mem(B.mmap, DSL_ARENA, len(memb))
+        for k in range(len(memb)):
+            for route, mm_, kk in (("map", ma, ka), ("step", mb, kb)):
+                if kk[k] and mm_[k] != rm[k]:
+                    return ("dsl:mem:%s:%s" % (route, tag), "byte +%#x: %s route %#x, reference %#x; program %r" % (k, route, mm_[k], rm[k], prog))
+        return None
+    finally:
+        conf.Cas.noaliasing, conf.Cas.memtrace, conf.Cas.complexity = old
+
+
+def run_dsl(shard, tier, seed, part):
+    from hypothesis import strategies as st
+
+    def body(rnd):
+        prog = gen_dsl(rnd)
+        base = DSL_ARENA + 0x40
+        pq = [(base, base + 0x40), (base, base), (base, base + 4), (base + 8, base)][rnd.randrange(4)]
+        regs = {n: [0, 1, 0xFFFFFFFF, 0x80000000, rnd.getrandbits(32)][rnd.randrange(5)] for n in DREG}
+        regs["p"], regs["q"] = pq
+        case = dict(kind="dsl", prog=prog, regs=regs, mem=bytes(rnd.getrandbits(8) for _ in range(0x100)).hex(), noalias=rnd.random() < 0.5)
+        r = dsl_case(case)
+        dep = any(i[0] == "alu" and any(j[0] == "alu" and j[1] in (i[3], i[4][1]) for j in prog[:k]) for k, i in enumerate(prog))
+        part.case(case["prog"] + [case["noalias"], pq], dep or any(i[0] in ("st", "ld") for i in prog), dict(prog=prog, noalias=case["noalias"]))
+        if r is not None:
+            from vlib.shrink import ddmin_list
+
+            def fl(p_):
+                x = dsl_case(dict(case, prog=p_))
+                return x is not None and x[0] == r[0]
+
+            small = dict(case, prog=ddmin_list(prog, fl, 40))
+            r2 = dsl_case(small) or r
+            part.fail(r2[0], small, r2[1])
+
+    campaign(st.randoms(use_true_random=False), body, NDSL[tier], shard_seed(seed, "dsl", shard["sub"]))
+
+
+NDSL = {"quick": 1500, "thorough": 60000}
+
+
 def run_shard(shard, tier, seed):
     from hypothesis import strategies as st
 
     part = Partial()
+    if shard.get("kind") == "dsl":
+        run_dsl(shard, tier, seed, part)
+        return part
     I = visa.load(shard["isa"])
     cpu = I.cpu
     regs = base_registers(cpu)
     arena = arena_of(cpu)
     modes = [(m, e) for (m, e) in I.modes() if e == 1 or not I.is_arm]  # fetch endianness is C04's business
     for (mode, e) in modes:
-        n = NSEQ[tier] // (len(modes) * shard.get("nsub", 1)) + 1
+        n = NSEQ[tier] * BOOST.get(I.name, 1) // (len(modes) * shard.get("nsub", 1)) + 1
 
         def body(rnd, mode=mode, e=e):
             k = rnd.randrange(1, 9) if rnd.random() < 0.7 else rnd.randrange(1, 4)
@@ -407,9 +599,10 @@ def run_shard(shard, tier, seed):
             for _ in range(k):
                 # draw until an encoding decodes and executes alone (construction, not filtering of whole sequences)
                 for attempt in range(12):
-                    b = I.gen_bytes(rnd, mode, e, tail=False)
-                    if good_instruction(I, b):
-                        seq.append(b.hex())
+                    b = I.gen_instr_bytes(rnd, mode, e) if rnd.random() < 0.75 else I.gen_bytes(rnd, mode, e, tail=False)
+                    g = good_instruction(I, b)
+                    if g:
+                        seq.append(b[:g].hex())
                         break
             I.reset_mode()
             if not seq:
@@ -453,6 +646,8 @@ _ISA = {}
 
 
 def replay(case):
+    if case.get("kind") == "dsl":
+        return dsl_case(case)
     I = _ISA.get(case["isa"]) or _ISA.setdefault(case["isa"], visa.load(case["isa"]))
     r = run_case(I, case)
     if r[0] == "fail":
@@ -462,6 +657,9 @@ def replay(case):
 
 def shrink(case, bucket, I=None):
     from vlib.shrink import ddmin_list
+
+    if case.get("kind") == "dsl":
+        return case
 
     I = I or _ISA.get(case["isa"]) or _ISA.setdefault(case["isa"], visa.load(case["isa"]))
     kind = bucket.split(":")[0]
